@@ -11,7 +11,9 @@ META = {
     "text": ("Hv.C02.recover_total_prefix: for a reader that maps a short block header and a short payload to EOF, every crash image of "
              "every chronicler history (Write/Sync/Close/reopen, any entry sizes) loads to the entries of a prefix of the flushed blocks "
              "that contains everything loadable at the last completed fsync; append_after_recovery: with an open that cuts the torn tail, "
-             "writes after the recovery are loadable; run_inv ties the executable writer model to the session logs the theorems are about. "
+             "writes after the recovery are loadable; second_crash_recovers (clause Resumes): a chronicler that resumes on a recovered file, "
+             "runs any acts and crashes again anywhere loads a prefix of recovered++written that contains everything recovered before and "
+             "everything synced since; run_inv / run_started tie the executable writer model to the session logs the theorems are about. "
              "For the code as it is: torn_block_load_error / not_recovers_of_torn_error (a torn payload is a load error, the swamp comes "
              "back empty), append_after_torn_tail_strands (loadEntries_strands: nothing behind a torn block is ever loaded), "
              "torn_create_bricks (a partial file header makes every later Write fail), C02_partial (crash points that leave at most a "
